@@ -113,6 +113,36 @@ def probe_memo(ns):
     return out
 
 
+def probe_long_sources():
+    """long sources (past 4 096 and 65 536 characters) carrying NUL, non-BMP characters and lone surrogates, at offsets 0 / middle /
+    end: every call returns or raises ParseError (the property's exception clause does not depend on the length of the input)"""
+    cls = type("LS", (Rule,), {})
+    for ln in ['o = *"z" "a"', 'w = 1*( %x21-7E / %x80-10FFFF )', 'q = [ "ab" ] *"b"', 't = 2*3( "ab" / %xD800 ) [ "a" ]']:
+        cls.create(ln)
+    out = []
+    for n in (4097, 5000, 66000):
+        base = "ab" * (n // 2)
+        for label, s in (("ascii", base), ("nul", base[: n // 2] + "\x00" + base[n // 2:]), ("astral", "\U0001F600" + base),
+                         ("surrogate-start", "\ud800" + base), ("surrogate-middle", base[: n // 2] + "\udfff" + base[n // 2:]),
+                         ("surrogate-end", base + "\ud800")):
+            for rule in ("o", "q", "t") + (("w",) if n <= 4097 else ()):      # w walks the whole source: quadratic in the library
+                for kind, call in (("parse0", lambda r: r.parse(s, 0)), ("parse-mid", lambda r: r.parse(s, len(s) // 2)),
+                                   ("parse-end", lambda r: r.parse(s, len(s))), ("parse_all", lambda r: r.parse_all(s)),
+                                   ("lparse", lambda r: list(r.lparse(s, 1)))):
+                    try:
+                        call(cls(rule))
+                        r = "ok"
+                    except ParseError:
+                        r = "ParseError"
+                    except GrammarError:
+                        r = "GrammarError"
+                    except Exception as e:  # noqa: BLE001
+                        r = "EXC:" + type(e).__name__
+                    if r.startswith("EXC"):
+                        out.append({"rule": rule, "length": len(s), "content": label, "call": kind, "raised": r[4:]})
+    return {"calls": 3 * 6 * 5 * 4 - 6 * 5, "unexpected": out[:10]}
+
+
 def main():
     ap = argparse.ArgumentParser()
     ap.add_argument("--out", required=True)
@@ -120,7 +150,7 @@ def main():
     ns = [6, 7, 8, 9, 10, 11, 12]
     json.dump({"recursion_limit": sys.getrecursionlimit(), "recursion_400": probe_recursion(400),
                "recursion_100": probe_recursion(100), "work_ns": ns, "work_calls": probe_work(ns),
-               "memo_probes": probe_memo([2, 4, 6, 8, 10, 12, 14])}, open(a.out, "w"))
+               "memo_probes": probe_memo([2, 4, 6, 8, 10, 12, 14]), "long_sources": probe_long_sources()}, open(a.out, "w"))
 
 
 if __name__ == "__main__":
